@@ -262,7 +262,9 @@ func runBufr(res *Result, drv *Driver, seed uint64, n int, tier string, only int
 	res.Rule = "part A: call sequences (ReadByte/ReadFull/Read/ReadAll) x buffer capacity x read schedule of the underlying reader " +
 		"(short reads, empty reads, stalls, EOF with data); part B: V4/V3/V2 files (intact, cut, zero/garbage tail, damaged headers) x " +
 		"reader (os file | scheduled reader through ReaderIoFactory) x capacity x ReadNext/SkipNext programs that go on after errors; " +
-		"non-trivial = at least one call returned data (A) / at least one record was returned (B); distinct = distinct driver lines"
+		"non-trivial = at least one call returned data (A) / at least one record was returned (B); distinct = distinct driver lines. " +
+		"Every fourth index also reads a hand-made V1 file (intact, cut, zero/garbage tail; oracles only, the model has no V1 reader). " +
+		"C12 oracle on every cut / tail-damaged file of every version: the records returned before the first error are the genuine records wholly inside the remaining bytes, in order, byte for byte"
 	grow := bufrGrowTable()
 	maxSeek, err := bufrMaxSeek(dir)
 	if err != nil {
@@ -283,7 +285,16 @@ func runBufr(res *Result, drv *Driver, seed uint64, n int, tier string, only int
 			}
 		} else {
 			res.Stat("part:B")
-			if err := bufrFileOne(res, drv, r, i, tier, grow, dir); err != nil {
+			if err := bufrFileOne(res, drv, r, i, tier, grow, dir, false); err != nil {
+				return err
+			}
+		}
+		// every fourth index also reads a hand-made VERSION 1 file (fixed 20 byte record headers; the readers still support
+		// the format, the model does not: property oracles only). Generator state of its own.
+		if i%4 == 3 {
+			res.Cases++
+			res.Stat("part:B:v1-file")
+			if err := bufrFileOne(res, drv, NewRng(seed^0x7631636f6d706174, uint64(i)), i, tier, grow, dir, true); err != nil {
 				return err
 			}
 		}
@@ -622,7 +633,11 @@ func magicPairs(file []byte) int {
 	return n
 }
 
-func bufrFileOne(res *Result, drv *Driver, r *Rng, idx int, tier string, grow string, dir string) error {
+// record separator of the version 1 format: MagicNumberSeparator as a little-endian uint32
+var magicV1 = []byte{0x91, 0x06, 0x13, 0x00}
+
+// v1: a hand-made version 1 file (no model: the property oracles only)
+func bufrFileOne(res *Result, drv *Driver, r *Rng, idx int, tier string, grow string, dir string, v1 bool) error {
 	thorough := tier == "thorough"
 	ct := r.Intn(4)
 	version := 4
@@ -630,7 +645,7 @@ func bufrFileOne(res *Result, drv *Driver, r *Rng, idx int, tier string, grow st
 	var payloads [][]byte
 	var file []byte
 
-	if r.Chance(60) {
+	if r.Chance(60) && !v1 {
 		// (a) a real V4 file
 		around := []int{8, 36, 37, 64, 127, 128, 512}
 		if r.Chance(8) || (thorough && r.Chance(10)) {
@@ -693,6 +708,9 @@ func bufrFileOne(res *Result, drv *Driver, r *Rng, idx int, tier string, grow st
 		if r.Chance(40) {
 			version = 2
 		}
+		if v1 {
+			version = 1
+		}
 		nrec := r.Intn(7)
 		file = binary.LittleEndian.AppendUint32(file, uint32(version))
 		file = binary.LittleEndian.AppendUint32(file, uint32(ct))
@@ -701,12 +719,16 @@ func bufrFileOne(res *Result, drv *Driver, r *Rng, idx int, tier string, grow st
 			if len(p) > 200 {
 				p = p[:200]
 			}
-			if version == 2 && p == nil {
+			if version <= 2 && p == nil {
 				p = []byte{}
 			}
 			payloads = append(payloads, p)
 			off := len(file)
-			file = append(file, magic...)
+			if version == 1 {
+				file = append(file, magicV1...)
+			} else {
+				file = append(file, magic...)
+			}
 			if version == 3 {
 				if p == nil {
 					file = append(file, 1)
@@ -725,10 +747,16 @@ func bufrFileOne(res *Result, drv *Driver, r *Rng, idx int, tier string, grow st
 					stored = st
 				}
 			}
-			file = appendUvarint(file, uint64(len(p)))
-			if ct != 0 {
+			switch {
+			case version == 1 && ct != 0: // two fixed 8 byte lengths
+				file = binary.LittleEndian.AppendUint64(binary.LittleEndian.AppendUint64(file, uint64(len(p))), uint64(len(stored)))
+			case version == 1:
+				file = binary.LittleEndian.AppendUint64(binary.LittleEndian.AppendUint64(file, uint64(len(p))), 0)
+			case ct != 0:
+				file = appendUvarint(file, uint64(len(p)))
 				file = appendUvarint(file, uint64(len(stored)))
-			} else {
+			default:
+				file = appendUvarint(file, uint64(len(p)))
 				file = appendUvarint(file, 0)
 			}
 			hl := len(file) - off
@@ -741,7 +769,11 @@ func bufrFileOne(res *Result, drv *Driver, r *Rng, idx int, tier string, grow st
 
 	// ---- damage
 	damage := "none"
-	if r.Chance(45) {
+	dmgPct := 45
+	if v1 {
+		dmgPct = 70
+	}
+	if r.Chance(dmgPct) {
 		k := r.Intn(100)
 		switch {
 		case k < 40:
@@ -756,6 +788,9 @@ func bufrFileOne(res *Result, drv *Driver, r *Rng, idx int, tier string, grow st
 			damage = "filehdr"
 		}
 		if damage == "hdrbyte" && (version != 4 || len(recs) == 0) {
+			damage = "cut"
+		}
+		if v1 && damage == "filehdr" {
 			damage = "cut"
 		}
 		if version == 4 && ct == 0 && r.Chance(25) {
@@ -991,7 +1026,8 @@ func bufrFileOne(res *Result, drv *Driver, r *Rng, idx int, tier string, grow st
 		return fmt.Sprintf(":%d", fac.cr.Count())
 	}
 	var toks []string
-	var opRes []string // per op, without counts
+	var opRes []string  // per op, without counts
+	var opRecs [][]byte // per op: the record a successful ReadNext returned
 	gotRecord := false
 	sawPanic := ""
 	openErr := safely(func() error { return rd.Open() })
@@ -1008,11 +1044,13 @@ func bufrFileOne(res *Result, drv *Driver, r *Rng, idx int, tier string, grow st
 		fv := binary.LittleEndian.Uint32(file[0:4])
 		fc := binary.LittleEndian.Uint32(file[4:8])
 		toks = append(toks, fmt.Sprintf("open:%d:%d", fv, fc)+count())
+		var lastRec []byte
 		for _, op := range prog {
 			var t string
 			if op == "r" {
 				var rec []byte
 				err := safely(func() error { var e error; rec, e = rd.ReadNext(); return e })
+				lastRec = append([]byte{}, rec...)
 				if err != nil {
 					t = "err:" + bufrErrKind(err)
 					if bufrErrKind(err) == "panic" {
@@ -1037,6 +1075,10 @@ func bufrFileOne(res *Result, drv *Driver, r *Rng, idx int, tier string, grow st
 			}
 			opRes = append(opRes, t)
 			toks = append(toks, t+count())
+			opRecs = append(opRecs, nil)
+			if op == "r" && strings.HasPrefix(t, "ok:") {
+				opRecs[len(opRecs)-1] = nonNil(lastRec)
+			}
 		}
 	}
 	_ = safely(func() error { return rd.Close() })
@@ -1046,19 +1088,24 @@ func bufrFileOne(res *Result, drv *Driver, r *Rng, idx int, tier string, grow st
 	}
 	res.Sample(line)
 
-	// ---- model
-	m, err := drv.Ask(line)
-	if err != nil {
-		return err
+	// ---- model (it has no reader for version 1)
+	m := ""
+	if !v1 {
+		m, err = drv.Ask(line)
+		if err != nil {
+			return err
+		}
+		mCmp := m
+		if mode == "osfile" {
+			mCmp = bufrStripCounts(m, false)
+		}
+		res.Cmp(idx, "bufr.file", mCmp, impl, line)
+	} else {
+		res.Stat("B:v1:oracles-only")
 	}
-	mCmp := m
-	if mode == "osfile" {
-		mCmp = bufrStripCounts(m, false)
-	}
-	res.Cmp(idx, "bufr.file", mCmp, impl, line)
 
 	// ---- buffered model vs pure-stream model
-	if ns && damage != "hugeskip" { // the pure-stream model has no int64 conversion of seek targets
+	if ns && damage != "hugeskip" && !v1 { // the pure-stream model has no int64 conversion of seek targets
 		sLine := fmt.Sprintf("bufr.stream file=%s oracle=%s prog=%s", fileArg, oracle, progArg)
 		sm, err := drv.Ask(sLine)
 		if err != nil {
@@ -1087,8 +1134,8 @@ func bufrFileOne(res *Result, drv *Driver, r *Rng, idx int, tier string, grow st
 				if op == "r" {
 					want := "ok:" + gb(recs[ri].payload)
 					g := got
-					if version == 2 && got == "ok:-" {
-						// version 2 has no nil records: the statement is about the bytes only (weaker on purpose)
+					if version <= 2 && got == "ok:-" {
+						// versions 1 and 2 have no nil records: the statement is about the bytes only (weaker on purpose)
 						g = "ok:."
 					}
 					if g != want {
@@ -1115,6 +1162,62 @@ func bufrFileOne(res *Result, drv *Driver, r *Rng, idx int, tier string, grow st
 	} else if damage == "none" && openErr != nil && ns {
 		res.Evaluations++
 		res.Violate(idx, "C04", fmt.Sprintf("bufr-file-v%d-%s:open", version, mode), "Open of an undamaged file failed: "+openErr.Error(), line)
+	}
+
+	// ---- C12 oracle: a cut file / a file with a damaged tail. The records returned before the first error are exactly the
+	// genuine records that are completely contained in the remaining bytes, in order and byte for byte (never a shortened
+	// payload, never a record nobody wrote), then EOF or an error. Nothing is demanded of a SkipNext at or behind the cut
+	// (the legacy formats seek without looking at the payload); a record returned after it is still a violation.
+	if (damage == "cut" || damage == "zeros" || damage == "garbage") && ns && openErr == nil {
+		complete := 0
+		for _, rc := range recs {
+			if rc.off+rc.hdrLen+rc.storedLen > len(file) {
+				break
+			}
+			complete++
+		}
+		res.Stat(fmt.Sprintf("B:c12-oracle:v%d:%s", version, damage))
+		if complete < len(recs) {
+			if len(file) >= recs[complete].off+recs[complete].hdrLen {
+				res.Stat(fmt.Sprintf("B:c12-oracle:v%d:cut-behind-a-record-header", version))
+			} else if len(file) > recs[complete].off {
+				res.Stat(fmt.Sprintf("B:c12-oracle:v%d:cut-inside-a-record-header", version))
+			}
+		}
+		sig := fmt.Sprintf("bufr-file-v%d-%s:%s", version, mode, damage)
+		ri := 0
+		for oi, op := range prog {
+			got := opRes[oi]
+			res.Evaluations++
+			if strings.HasPrefix(got, "err:") {
+				if ri < complete {
+					res.Violate(idx, "C12", sig+":genuine-record-not-returned"+bufrNilSig(ct, recs[ri].payload),
+						fmt.Sprintf("op %d (%s) at record %d, which lies wholly inside the %d remaining bytes: got %s", oi, op, ri, len(file), got), line)
+				}
+				break
+			}
+			if op == "r" {
+				if ri >= complete {
+					kind := "unwritten-record"
+					if ri < len(recs) && len(opRecs[oi]) < len(recs[ri].payload) && bytes.HasPrefix(recs[ri].payload, opRecs[oi]) {
+						kind = "shortened-record"
+					}
+					res.Violate(idx, "C12", sig+":"+kind, fmt.Sprintf("op %d ReadNext returned %s with a nil error; %d of %d records lie wholly inside the %d remaining bytes (file written: %d bytes)",
+						oi, clipTok(got), complete, len(recs), len(file), intactLen), line)
+					break
+				}
+				want := "ok:" + gb(recs[ri].payload)
+				g := got
+				if version <= 2 && got == "ok:-" {
+					g = "ok:." // versions 1 and 2 have no nil records: the statement is about the bytes only
+				}
+				if g != want {
+					res.Violate(idx, "C12", sig+":record-differs"+bufrNilSig(ct, recs[ri].payload), fmt.Sprintf("op %d ReadNext at record %d: want %s got %s", oi, ri, clipTok(want), clipTok(got)), line)
+					break
+				}
+			}
+			ri++
+		}
 	}
 	return nil
 }
